@@ -62,6 +62,11 @@ func c12body(seq []int, sm bool, writeFails bool, reset bool, mode string) func(
 			ka = 7
 		}
 		so := sessOpts{sm: sm, smResume: sm, keepalive: ka, noCatchAll: mode == "handler-waits"}
+		if mode == "sm-no-resume" {
+			// the server enables stream management and does not grant resumption (an id, no resume attribute): the
+			// session is stream-managed all the same, and its state is what the Disconnected event carries
+			so.enableAns = "enabled-id-no-resume"
+		}
 		if mode == "resumed-after-failed-attempt" {
 			// the connection under test is the third one: the first was lost, the second attempt was cut by the
 			// server in the middle of the negotiation (the client gives that attempt up and closes it itself), the
@@ -246,9 +251,11 @@ func c12body(seq []int, sm bool, writeFails bool, reset bool, mode string) func(
 		}
 		nErr, nEv := len(s.errs)-nErr0, 0
 		var smOK = true
+		evInbound := -1
 		for _, ev := range s.events[nEv0:] {
 			if ev.State.state == StateDisconnected {
 				nEv++
+				evInbound = int(ev.SMState.Inbound)
 				if sm && ev.SMState.Id != "smid-0" && ev.SMState.Id != fmt.Sprintf("smid-%d", connIdx) {
 					smOK = false
 				}
@@ -261,6 +268,17 @@ func c12body(seq []int, sm bool, writeFails bool, reset bool, mode string) func(
 			vrt.Fail("C12|disconnected-event-count"+key, "%s: %d Disconnected events", ctx, nEv)
 		} else if !smOK {
 			vrt.Fail("C12|disconnected-without-sm-state", "%s: the Disconnected event does not carry the stream-management state", ctx)
+		} else if sm && (mode == "" || mode == "sm-no-resume") {
+			// the state it carries counts the stanzas of this (first) session that were completely received
+			wantIn := 0
+			for i := 0; i < complete; i++ {
+				if c12alphabet[seq[i]].routed != "" {
+					wantIn++
+				}
+			}
+			if evInbound != wantIn {
+				vrt.Fail("C12|event-sm-state-count"+key, "%s: the Disconnected event carries an inbound count of %d, %d stanzas were completely received", ctx, evInbound, wantIn)
+			}
 		}
 		for i := 0; i < complete; i++ {
 			want := uniq(c12alphabet[seq[i]].routed, i)
@@ -344,6 +362,10 @@ func TestVerifC12(t *testing.T) {
 				if !wf && len(q) <= 2 {
 					scs = append(scs, hx.Scenario{Name: fmt.Sprintf("seq=%s/sm=%v/mode=cut-on-tick", strings.Join(n, ","), sm),
 						Opt: vrt.Options{Bound: 1, Horizon: 100000}, Body: c12body(q, sm, false, false, "cut-on-tick"), Verdict: c12verdict})
+					if sm {
+						scs = append(scs, hx.Scenario{Name: fmt.Sprintf("seq=%s/sm=%v/mode=sm-no-resume", strings.Join(n, ","), sm),
+							Opt: vrt.Options{Bound: bound, Horizon: 100000}, Body: c12body(q, sm, false, false, "sm-no-resume"), Verdict: c12verdict})
+					}
 					for _, mode := range []string{"handler-waits", "second-connection", "second-connection-after-parse-error", "reconnected-from-handler", "resumed-after-failed-attempt", "eof-with-data", "logger-eof-with-data"} {
 						scs = append(scs, hx.Scenario{Name: fmt.Sprintf("seq=%s/sm=%v/mode=%s", strings.Join(n, ","), sm, mode),
 							Opt: vrt.Options{Bound: bound, Horizon: 100000}, Body: c12body(q, sm, false, false, mode), Verdict: c12verdict})
